@@ -18,6 +18,98 @@ import (
 func init() {
 	register("routes3", kindRoutes3)
 	register("stmts_opt", kindStmtsOpt)
+	register("loopexits", kindLoopExits)
+}
+
+// loopexits {"name","dir","func"} → def <name> : List String
+// Every way out of (or around) the FIRST `for` statement of the function, in source order:
+// "break", "continue", "return", "goto", "panic" statements inside the loop body (function literals and
+// nested loops/switches that capture an unlabelled break are not entered for break/continue),
+// each with the chain of enclosing if-conditions, outermost first:  "break | if err != nil".
+// Then "after: <n> statements" — how many statements follow the loop in the function body
+// (the code every `break` falls into).
+func kindLoopExits(c *Ctx, it Item) (string, error) {
+	p, fd, err := c.FindFunc(it.Str("dir"), it.Str("func"))
+	if err != nil {
+		return "", err
+	}
+	var loop *ast.ForStmt
+	after := 0
+	for i, st := range fd.Body.List {
+		if f, ok := st.(*ast.ForStmt); ok {
+			loop = f
+			after = len(fd.Body.List) - i - 1
+			break
+		}
+	}
+	if loop == nil {
+		return "", fmt.Errorf("no top-level for statement in %s", it.Str("func"))
+	}
+	var rows []string
+	var walk func(n ast.Node, conds []string, breakable bool)
+	add := func(kind string, conds []string) {
+		row := kind
+		if len(conds) > 0 {
+			row += " | " + strings.Join(conds, " && ")
+		}
+		rows = append(rows, row)
+	}
+	walk = func(n ast.Node, conds []string, inner bool) {
+		switch x := n.(type) {
+		case nil:
+			return
+		case *ast.BlockStmt:
+			for _, st := range x.List {
+				walk(st, conds, inner)
+			}
+		case *ast.IfStmt:
+			cond := "if " + exprText(p.Fset, x.Cond)
+			if x.Init != nil {
+				cond = "if " + exprText(p.Fset, x.Init) + "; " + exprText(p.Fset, x.Cond)
+			}
+			walk(x.Body, append(append([]string{}, conds...), cond), inner)
+			if x.Else != nil {
+				walk(x.Else, append(append([]string{}, conds...), "else of "+cond), inner)
+			}
+		case *ast.BranchStmt:
+			if x.Label != nil {
+				add(x.Tok.String()+" "+x.Label.Name, conds)
+			} else if !inner || x.Tok.String() == "goto" {
+				add(x.Tok.String(), conds)
+			}
+		case *ast.ReturnStmt:
+			add("return", conds)
+		case *ast.ExprStmt:
+			if ce, ok := x.X.(*ast.CallExpr); ok {
+				if nm := calleeName(ce.Fun); nm == "panic" || nm == "Exit" || nm == "Fatalf" || nm == "Goexit" {
+					add(nm, conds)
+				}
+			}
+		case *ast.ForStmt:
+			walk(x.Body, append(append([]string{}, conds...), "for"), true)
+		case *ast.RangeStmt:
+			walk(x.Body, append(append([]string{}, conds...), "range"), true)
+		case *ast.SwitchStmt:
+			walk(x.Body, append(append([]string{}, conds...), "switch"), true)
+		case *ast.TypeSwitchStmt:
+			walk(x.Body, append(append([]string{}, conds...), "switch"), true)
+		case *ast.SelectStmt:
+			walk(x.Body, append(append([]string{}, conds...), "select"), true)
+		case *ast.CaseClause:
+			for _, st := range x.Body {
+				walk(st, conds, inner)
+			}
+		case *ast.CommClause:
+			for _, st := range x.Body {
+				walk(st, conds, inner)
+			}
+		case *ast.LabeledStmt:
+			walk(x.Stmt, conds, inner)
+		}
+	}
+	walk(loop.Body, nil, false)
+	rows = append(rows, fmt.Sprintf("after: %d statements", after))
+	return fmt.Sprintf("def %s : List String := [\n  %s]\n", it.Str("name"), strings.Join(quoteAll(rows), ",\n  ")), nil
 }
 
 // stmts_opt: like `stmts`, but a function that does not exist yields the empty list (used for
